@@ -28,9 +28,17 @@ pub struct N2 {
     #[zvt_bmp(length = length::Fixed<2>, encoding = encoding::Bcd)]
     pub y: u16,
 }
+#[derive(Debug, PartialEq, Zvt, Default)]
+pub struct N3 {
+    #[zvt_tlv(tag = 0x42)]
+    pub c: u8,
+    #[zvt_tlv(tag = 0x43, encoding = encoding::Hex)]
+    pub d: Option<String>,
+}
 '''
 NESTED_TLA = '''  N1 |-> << T("a", 65, "opt", Hex), T("b", 7952, "opt", U8) >>,
-  N2 |-> << P("x", Em, "req", U8), P("y", Fx(2), "req", Bcd(2)) >>'''
+  N2 |-> << P("x", Em, "req", U8), P("y", Fx(2), "req", Bcd(2)) >>,
+  N3 |-> << T("c", 66, "req", U8), T("d", 67, "opt", Hex) >>'''
 
 
 def len_rs(f):
@@ -128,7 +136,7 @@ def build_batch(chk, wd, defs, label):
         if cf:
             cmd_rows.append("%s |-> <<%d, %d>>" % (name, cf[0], cf[1]))
     rs.append("pub fn runner(name: &str) -> Option<fn(&[u8]) -> crate::codec::Rec> {\n    match name {")
-    for n in names + ["N1", "N2"]:
+    for n in names + ["N1", "N2", "N3"]:
         rs.append('        "%s" => Some(crate::codec::run_one::<%s> as fn(&[u8]) -> crate::codec::Rec),' % (n, n))
     rs.append("        _ => None,\n    }\n}")
     crate = os.path.join(wd, "crate_" + label)
@@ -229,7 +237,12 @@ def run(chk):
         for i in range(0, len(pool), 600):
             batches.append(pool[i:i + 600])
     else:
-        batches.append(rnd.sample(one, 110) + rnd.sample(two, 150) + uniq[:40])
+        # stratified: every one-field definition over a nested struct (they carry the absent-value and required-tag cases), a sample
+        # of the others; two-field definitions half from those with a nested field, half from the rest
+        def nested(d):
+            return any(f["ty"].startswith("N") for f in d["fields"])
+        batches.append([d for d in one if nested(d)] + rnd.sample([d for d in one if not nested(d)], 90)
+                       + rnd.sample([d for d in two if nested(d)], 60) + rnd.sample([d for d in two if not nested(d)], 90) + uniq[:40])
     total_structs = 0
     total_cases = 0
     canon = 0
@@ -248,7 +261,7 @@ def run(chk):
             chk.cov["states"] += g.distinct
             chk.cov["transitions"] += g.generated
             cases += cs
-        cases = [c for c in cases if c["ty"] not in ("N1", "N2") or c["cls"] == "canon"]
+        cases = [c for c in cases if c["ty"] not in ("N1", "N2", "N3") or c["cls"] == "canon"]
         cin, cout = os.path.join(wd, label + ".cases.ndjson"), os.path.join(wd, label + ".records.ndjson")
         vlib.write_ndjson(cin, cases)
         p = subprocess.run([binary, cin, cout], stdout=subprocess.PIPE, stderr=subprocess.PIPE, timeout=3000)
@@ -304,5 +317,5 @@ def run(chk):
                        "(interpreting the generator's own description) produces boundary values, permutations / duplicates / removals / foreign tags and "
                        "suffix cases; the real derived code runs on them; TLC judges. distinct_nontrivial = canonical generated values" % len(defs))
     chk.assumptions += ["the grammar's well-formedness rules (DeriveGrammar.tla) delimit what counts as a wire format",
-                        "nesting depth 2 (N1, N2 as field types); up to 6 fields per struct"]
+                        "nesting depth 2 (N1, N2, N3 as field types); up to 6 fields per struct"]
     shutil.rmtree(wd, ignore_errors=True)
